@@ -1,6 +1,8 @@
 import ElvModel.Go.Driver
 import ElvModel.C17.Model
 import ElvModel.C17.Covered
+import ElvModel.C17.DocMatch
+import ElvModel.C17.ClosureSrc
 namespace C17
 open Go
 
@@ -98,6 +100,75 @@ def subseqLine (hs ht : String) : String :=
     | .panic _ => "PANIC"
   | _, _ => "bad-op"
 
+/-! ### round 2: `doc:find` highlighting and `closure[def]`/`closure[body]` -/
+
+/-- hex bytes, `e` for the empty string -/
+def parseHexE (s : String) : Option Bytes := if s = "e" then some [] else hexDecode s
+def hexE (b : Bytes) : String := if b.isEmpty then "e" else hexEncode b
+
+def parseRange (s : String) : Option Ranging :=
+  match s.splitOn ":" with
+  | [a, b] => do some ⟨← a.toInt?, ← b.toInt?⟩
+  | _ => none
+
+def parseRanges (s : String) : Option (List Ranging) := (splitList s ",").mapM parseRange
+
+def showRanges (rs : List Ranging) : String :=
+  if rs.isEmpty then "-" else String.intercalate "," (rs.map fun r => s!"{r.from_}:{r.to}")
+
+def docmergeLine (ranges : String) : String :=
+  match parseRanges ranges with
+  | some rs =>
+    match sortAndMergeMatches stableSortByFrom rs with
+    | .ok out => "OK " ++ showRanges out
+    | .exc e => "EXC " ++ e
+    | .panic _ => "PANIC"
+  | none => "bad-op"
+
+def docshowLine (code text ranges : String) : String :=
+  match parseHexE text, parseRanges ranges with
+  | some t, some rs =>
+    match showBlock styledBoldRed ⟨⟨t, code == "1"⟩, rs⟩ with
+    | .ok out => "OK " ++ hexE out
+    | .exc e => "EXC " ++ e
+    | .panic _ => "PANIC"
+  | _, _ => "bad-op"
+
+def parseBlock (s : String) : Option Block :=
+  match s.toList with
+  | 'c' :: rest => (parseHexE (String.ofList rest)).map (⟨·, true⟩)
+  | 'p' :: rest => (parseHexE (String.ofList rest)).map (⟨·, false⟩)
+  | _ => none
+
+def docfindLine (blocks queries : String) : String :=
+  match (splitList blocks ",").mapM parseBlock, (splitList queries ",").mapM parseHexE with
+  | some bs, some qs =>
+    match docFindIn stableSortByFrom styledBoldRed bs qs with
+    | .ok none => "NOMATCH"
+    | .ok (some out) => "OK " ++ (if out.isEmpty then "-" else String.intercalate "," (out.map hexE))
+    | .exc e => "EXC " ++ e
+    | .panic _ => "PANIC"
+  | _, _ => "bad-op"
+
+def parseInts (s : String) : Option (List Int) := (splitList s ",").mapM String.toInt?
+
+def closrcLine (src printable : String) : String :=
+  match parseHexE src, parseInts printable with
+  | some src, some pr =>
+    match C01.parse (fun r => pr.contains r) src with
+    | .ok t _ =>
+      let ls := lambdasOf t
+      let items := ls.map fun lam =>
+        match closureDefBody src lam with
+        | .ok (d, some b) => "def=" ++ hexE d ++ " body=" ++ hexE b
+        | .ok (d, none) => "def=" ++ hexE d ++ " body=none"
+        | .exc e => "EXC " ++ e
+        | .panic _ => "PANIC"
+      String.intercalate " | " (s!"{ls.length}" :: items)
+    | .panic _ => "PARSE-PANIC"
+    | .fuel => "FUEL"
+  | _, _ => "bad-op"
+
 /-- Inventory line: the status of a site in the committed baseline. -/
 def invLine (status : String) : String :=
   if status.startsWith "covered-by:" then
@@ -112,6 +183,10 @@ def invLine (status : String) : String :=
 * `gofn <sig> <variadic> <nopts> <optbad> <args>`
 * `clos <nargs> <rest> <optnames> <optdefaults> <nnew> <args> <opts>`
 * `subseq <hex s> <hex t>`
+* `docmerge <from:to,…>` — `sortAndMergeMatches` on raw matches
+* `docshow <0|1 code> <hex text> <from:to,…>` — `matchedBlock.Show` on arbitrary matches (overlapping ones panic on both sides)
+* `docfind <hex markdown> <c|p hex,…> <hex,…>` — `match` + `Show` from the rendered blocks on (the markdown is for the implementation side, which checks that it renders to these blocks)
+* `closrc <hex source> <printable>` — `closure[def]` / `closure[body]` of every lambda of the source, in source order
 * `inv <site key> <status>`
 * `call <name> <hex code>` / `form <kind> <hex code>` — exploration: the
   model has nothing to say about these (they are NOT correspondence ops); both
@@ -120,6 +195,10 @@ def stepLine : List String → String
   | ["gofn", sig, variadic, nopts, optbad, args] => gofnLine sig variadic nopts optbad args
   | ["clos", nargs, rest, on, od, nnew, args, opts] => closLine nargs rest on od nnew args opts
   | ["subseq", hs, ht] => subseqLine hs ht
+  | ["docmerge", ranges] => docmergeLine ranges
+  | ["docshow", code, text, ranges] => docshowLine code text ranges
+  | ["docfind", _markdown, blocks, queries] => docfindLine blocks queries
+  | ["closrc", src, printable] => closrcLine src printable
   | ["inv", _key, status] => invLine status
   | ["call", _name, _code] => "explored"
   | ["form", _kind, _code] => "explored"
